@@ -53,13 +53,13 @@ def _idx(prog: Program, res: Result) -> None:
             problems.append(f"numpy receives order={ast.unparse(o)} instead of the function's own order argument")
         if name == "tt_sub2ind":
             a0 = call.args[0] if call.args else None
-            t = ast.unparse(a0) if a0 is not None else ""
+            t = fi.rtext(a0) if a0 is not None else ""
             if not (t.startswith("tuple(") and ("transpose()" in t or ".T" in t)):
                 problems.append(f"subscripts are not handed over column-wise (got {t})")
         else:
             # result must be transposed back to one row per index
             ret = [n for n in ast.walk(fi.node) if isinstance(n, ast.Return) and n.value is not None and any(x is call for x in ast.walk(n.value))]
-            if ret and not ("transpose()" in ast.unparse(ret[0].value) or ".T" in ast.unparse(ret[0].value)):
+            if ret and not ("transpose()" in fi.rtext(ret[0].value) or ".T" in fi.rtext(ret[0].value) or "transpose(" in fi.rtext(ret[0].value)):
                 problems.append("the coordinate arrays are not transposed back into subscript rows")
         if problems:
             res.bad("IDX-inv", fi.short, desc, where, "; ".join(problems))
@@ -129,6 +129,9 @@ def _dims(prog: Program, res: Result) -> None:
     ret = [n for n in ast.walk(fi.node) if isinstance(n, ast.Return) and isinstance(n.value, ast.Tuple) and len(n.value.elts) == 2]
     if not ret:
         raise AnalysisError("tt_dimscheck no longer returns a pair")
+    # several returns (an early `return sorted, None` when no multiplicands are expected): the informative one names an index
+    ret.sort(key=lambda r: (isinstance(r.value.elts[1], ast.Constant), -r.lineno))
+    ret = list(reversed(ret))
     first, second = ret[-1].value.elts
     t1 = tag(first)
     desc = "first result is the selected modes in ascending order"
@@ -146,6 +149,24 @@ def _dims(prog: Program, res: Result) -> None:
         desc = "multiplicand index = argsort of the modes when one multiplicand per selected mode, else the sorted modes"
         cond_assigns = [a for a in assigns[second.id] if not (isinstance(a.value, ast.Constant) and a.value.value is None)]
         verdict, why = None, ""
+        for a in cond_assigns:
+            v = a.value
+            if isinstance(v, ast.IfExp) and isinstance(v.test, ast.Compare) and len(v.test.ops) == 1:
+                eq = isinstance(v.test.ops[0], ast.Eq)
+                ne = isinstance(v.test.ops[0], ast.NotEq)
+                names = {ast.unparse(v.test.left), ast.unparse(v.test.comparators[0])}
+                tt, ft = tag(v.body), tag(v.orelse)
+                if ne:
+                    tt, ft = ft, tt
+                if not (eq or ne) or "M" not in names:
+                    verdict, why = "UNDEC", f"selector test {ast.unparse(v.test)}"
+                elif tt and ft and tt.startswith("ARGSORT(") and ft.startswith("SORTED(") and (subject is None or (subject in tt and subject in ft)):
+                    verdict, why = "OK", f"P == M -> {tt}; else -> {ft}"
+                elif tt is None or ft is None:
+                    verdict, why = "UNDEC", f"index expressions not recognised ({tt}, {ft})"
+                else:
+                    verdict, why = "BAD", f"when the counts are equal the index is {tt}, otherwise {ft} (expected ARGSORT / SORTED of the modes): " \
+                                          "multiplicands are paired with the wrong modes whenever dims is not an involution of its sorted order"
         for n in ast.walk(fi.node):
             if isinstance(n, ast.If) and isinstance(n.test, ast.Compare) and len(n.test.ops) == 1:
                 tb = [a for a in cond_assigns if a in n.body]
@@ -176,7 +197,7 @@ def _dims(prog: Program, res: Result) -> None:
     desc = "excluded modes are complemented as setdiff1d(arange(N), exclude_dims)"
     sd = [c for c in ast.walk(fi.node) if isinstance(c, ast.Call) and (dotted(c.func) or "").split(".")[-1] == "setdiff1d"]
     if sd:
-        a, b = (ast.unparse(x) for x in sd[0].args[:2])
+        a, b = (fi.rtext(x) for x in sd[0].args[:2])
         if "arange" in a and "exclude_dims" in b and "N" in a:
             res.ok("DIMS", short, desc, prog.loc(fi, sd[0]))
         else:
@@ -184,16 +205,49 @@ def _dims(prog: Program, res: Result) -> None:
     else:
         res.undecided("DIMS", short, desc, prog.loc(fi))
     desc = "with neither dims nor exclude_dims every mode is selected (arange(N))"
+    parents = {}
+    for x in ast.walk(fi.node):
+        for c in ast.iter_child_nodes(x):
+            parents[id(c)] = x
+
+    def none_facts(node) -> Dict[str, bool]:
+        """{'dims': True} = known to be None on the way to node, from the enclosing if / elif / else tests."""
+        facts: Dict[str, bool] = {}
+
+        def learn(test, truth):
+            if isinstance(test, ast.BoolOp) and isinstance(test.op, ast.And) and truth:
+                for v in test.values:
+                    learn(v, True)
+                return
+            if isinstance(test, ast.BoolOp) and isinstance(test.op, ast.Or) and not truth:
+                for v in test.values:
+                    learn(v, False)
+                return
+            if isinstance(test, ast.Compare) and len(test.ops) == 1 and isinstance(test.left, ast.Name) \
+                    and isinstance(test.comparators[0], ast.Constant) and test.comparators[0].value is None:
+                is_none = isinstance(test.ops[0], ast.Is) == truth
+                facts[test.left.id] = is_none
+        cur = node
+        while id(cur) in parents:
+            par = parents[id(cur)]
+            if isinstance(par, ast.If):
+                if any(cur is b for b in par.body):
+                    learn(par.test, True)
+                elif any(cur is b for b in par.orelse):
+                    learn(par.test, False)
+            cur = par
+        return facts
     found = False
-    for n in ast.walk(fi.node):
-        if isinstance(n, ast.If) and "dims is None" in ast.unparse(n.test) and "exclude_dims is None" in ast.unparse(n.test):
-            for a in n.body:
-                if isinstance(a, ast.Assign) and "arange" in ast.unparse(a.value):
-                    found = True
-                    if ast.unparse(a.value).replace(" ", "") in ("np.arange(0,N)", "np.arange(N)"):
-                        res.ok("DIMS", short, desc, prog.loc(fi, a), nontrivial=False)
-                    else:
-                        res.bad("DIMS", short, desc, prog.loc(fi, a), f"default selection is {ast.unparse(a.value)}")
+    for a_ in ast.walk(fi.node):
+        if isinstance(a_, ast.Assign) and len(a_.targets) == 1 and isinstance(a_.targets[0], ast.Name):
+            f_ = none_facts(a_)
+            if f_.get("dims") is True and f_.get("exclude_dims") is True:
+                found = True
+                if fi.rtext(a_.value).replace(" ", "") in ("np.arange(0,N)", "np.arange(N)"):
+                    res.ok("DIMS", short, desc, prog.loc(fi, a_), nontrivial=False)
+                else:
+                    res.bad("DIMS", short, desc, prog.loc(fi, a_), f"default selection is {ast.unparse(a_.value)}")
+                break
     if not found:
         res.undecided("DIMS", short, desc, prog.loc(fi))
 
